@@ -85,6 +85,8 @@ def cases(rng: random.Random, tier: str):
         orgs = zoo.OrgTable()
         tree_s = zoo.enc_tree(root, toks, orgs)
         foreign_s = [zoo.enc_tree(f, toks, orgs) for f in foreign]
+        cv = zoo.config_variation(rng, 0.3)
+        cv.__enter__()
         t = Tree(root)
         tk = toks.tok
         qs, real = [], []
@@ -129,10 +131,19 @@ def cases(rng: random.Random, tier: str):
             q([A("depth"), tk(n), tk(a), False], lambda: t.get_depth(n, a, check_ancestor=False), int)
             q([A("depth"), tk(n), tk(a), True], lambda: t.get_depth(n, a), int)
             q([A("isanc"), tk(n), tk(a)], lambda: t.is_ancestor(n, a), bool)
+            # queries must not depend on earlier queries: absolute depths again after relative ones, for the node
+            # and for the nodes between it and the ancestor
+            q([A("depth"), tk(n), None, True], lambda: t.get_depth(n), int)
+            p_ = t.get_parent(n)
+            while p_ is not None and p_ is not a:
+                q([A("depth"), tk(p_), None, True], lambda: t.get_depth(p_), int)
+                p_ = t.get_parent(p_)
+            q([A("anc"), tk(n)], lambda: list(t.get_ancestors(n)), lambda l: [tk(x) for x in l])
         line = dumps([A("tree-queries"), zoo.class_table(), orgs.sexp(), [A("tree"), tree_s],
                       [A("foreign")] + foreign_s, [A("queries")] + qs])
         desc = zoo.show(root) + f" foreign={len(foreign)}"
-        yield Case("tree-queries", line, dumps(real), len(nodes) >= 4, desc, sig="tree|queries")
+        cv.__exit__()
+        yield Case("tree-queries", line, dumps(real), len(nodes) >= 4, desc + f" TRACE_LOGGING={cv.on}", sig="tree|queries")
         # oracle on get_xpath
         fail = None
         xps = {}
